@@ -162,3 +162,16 @@ META["C22"] = E("fault enumeration: a panic injected at every user-code step, re
     "one waits on the other (propagated panic or correct value, never a hang). Known findings F2 and F13 are reported as KNOWN-FINDING by "
     "(injection site, failure message) signature; F1 was repaired.",
     SINGLE_NOTE, "E-fault (E-single replay per injection point) + E-os")
+
+META["C25"] = E("exhaustive + sampled round-trip oracle over the real origin encoder/decoder, plus Miri on the unsafe allocation code",
+    "Exploration, exhaustive for the bounded part: all 176821 edge sequences of length <= 2 over 420 boundary classes (just inside / outside the "
+    "12-bit ingredient and 20-bit generation limits of the compact encoding, index extremes, input/output) are built as stored origins in 4 "
+    "variants each and decoded again through a feature-guarded hook that calls salsa's own constructors and accessors; the oracle is the plain "
+    "vector the origin was built from (order, kinds, ingredient, index, generation; input/output partition; extra data kept by clear_edges and "
+    "by late attachment). Longer sequences (3..40) are sampled with packable prefixes so the packed-to-wide fallback happens mid-sequence; "
+    "persisted origins are round-tripped through serde_json in the persistence build; Miri interprets all sequences of length <= 1 plus samples "
+    "(undefined behaviour in the co-allocated header/slice code would be reported).",
+    "Trusted base: the hook module `salsa::verif::origin` (thin wrapper, feature-guarded, additive), Miri for the UB verdict on what it executes. "
+    "Sequences longer than 40 edges and ingredient/index values between the boundary classes are only sampled.",
+    "native loop + Miri")
+HOOK_COMMITS.append("cb42a1b")
